@@ -102,6 +102,7 @@ type Exec struct {
 
 	stepReqs, stepMuts int
 	stepEff            int
+	callSeq            int
 	saved              map[string][]string // labelled results of version steps
 }
 
@@ -373,6 +374,32 @@ type reqSummary struct {
 	puts, dels, gets, lists int
 }
 
+// emitCall logs the start of an API call with its arguments, before it runs, so
+// that storage requests issued inside the call can be attributed to it.
+func (e *Exec) emitCall(s Step) {
+	op := s.str("op")
+	m := map[string]interface{}{"ev": "call", "op": op, "step": e.stepIdx}
+	if c := s.str("c"); c != "" {
+		m["c"] = c
+	}
+	switch op {
+	case "stmt":
+		cols := s.strmap("cols")
+		vals := map[string]string{}
+		for _, n := range e.cols {
+			if v, ok := cols[n]; ok {
+				vals[n] = v
+			} else {
+				vals[n] = "NONE"
+			}
+		}
+		m["kind"], m["key"], m["vals"], m["wt"], m["intx"] = s.str("kind"), s.str("key"), vals, s.num("wt", -1), s.num("intx", 0)
+	case "vacuum":
+		m["cutoff"] = s.num("cutoff", 0)
+	}
+	e.callSeq = e.tr.Emit(m)
+}
+
 func (e *Exec) emit(ev string, s Step, extra map[string]interface{}) {
 	m := map[string]interface{}{"ev": ev, "step": e.stepIdx}
 	if c := s.str("c"); c != "" {
@@ -383,6 +410,9 @@ func (e *Exec) emit(ev string, s Step, extra map[string]interface{}) {
 			m["dm"] = e.client(c).fc.totMuts() - e.stepMuts
 			m["dme"] = e.client(c).fc.totEff() - e.stepEff
 		}
+	}
+	if ev != "call" && e.callSeq > 0 {
+		m["cseq"] = e.callSeq
 	}
 	for _, k := range []string{"fix", "tag", "phase", "same", "same_as_begin"} {
 		if s.has(k) {
@@ -805,6 +835,8 @@ func (e *Exec) doPlan(s Step) {
 	kind := faultErr
 	if s.str("kind") == "deadline" {
 		kind = faultDeadline
+	} else if s.str("kind") == "404" {
+		kind = fault404
 	}
 	if s.has("fail_at") {
 		if s.num("persistent", 0) == 1 {
@@ -854,6 +886,11 @@ func (e *Exec) runStep(s Step) {
 		e.stepMuts = e.client(c).fc.totMuts()
 		e.stepEff = e.client(c).fc.totEff()
 	}
+	e.callSeq = 0
+	switch s.str("op") {
+	case "stmt", "vacuum", "commit", "begin", "rollback", "open", "refresh", "changes":
+		e.emitCall(s)
+	}
 	switch s.str("op") {
 	case "open":
 		e.doOpen(s)
@@ -887,6 +924,8 @@ func (e *Exec) runStep(s Step) {
 		e.doKVDump(s)
 	case "prefill":
 		e.doPrefill(s)
+	case "tx2tables":
+		e.doTx2Tables(s)
 	case "plan":
 		e.doPlan(s)
 	case "heal":
@@ -959,4 +998,75 @@ func (e *Exec) doPrefill(s Step) {
 		e.doStmt(Step{"op": "stmt", "c": c.id, "id": fmt.Sprintf("p%d", k), "kind": "ins", "key": fmt.Sprintf("i:%d", k), "cols": cols, "wt": float64(wt), "intx": float64(1)})
 	}
 	e.doTx(Step{"op": "commit", "c": c.id})
+}
+
+// doTx2Tables: one explicit transaction with the default write time that writes
+// to two s3db tables of the same connection; reports the entry times of the
+// rows it wrote (C05: one write time per transaction).
+func (e *Exec) doTx2Tables(s Step) {
+	c := e.client(s.str("c"))
+	e.tabSeq++
+	t2 := fmt.Sprintf("u%d_%s_%d", scnSeq, c.id, e.tabSeq)
+	out := map[string]interface{}{"times": []string{}}
+	fail := func(err error) {
+		out["outcome"] = classifyErr(err)
+		out["err"] = errStr(err)
+		e.emit("tx2", s, out)
+	}
+	args := []string{"columns='k primary key, a'", "s3_bucket='" + e.st.name + "'", "s3_endpoint='http://" + c.id + "'", "s3_prefix='" + e.prefix + "-second'"}
+	if _, err := e.exec(c, "create virtual table "+t2+" using s3db ("+strings.Join(args, ", ")+")"); err != nil {
+		fail(err)
+		return
+	}
+	if err := e.setWriteTime(c, -1); err != nil {
+		fail(err)
+		return
+	}
+	base := s.num("base", 8800)
+	stmts := []string{
+		"begin",
+		fmt.Sprintf("insert into %s (k, a) values (%d, 'x1')", c.table, base),
+		fmt.Sprintf("insert into %s (k, a) values (%d, 'y1')", t2, base),
+		fmt.Sprintf("insert into %s (k, a) values (%d, 'x2')", c.table, base+1),
+		fmt.Sprintf("update %s set a='y2' where k=%d", t2, base),
+		"commit",
+	}
+	for _, q := range stmts {
+		if q == "commit" {
+			time.Sleep(3 * time.Millisecond)
+		}
+		if _, err := e.exec(c, q); err != nil {
+			e.exec(c, "rollback")
+			fail(fmt.Errorf("%s: %w", q, err))
+			return
+		}
+		time.Sleep(2 * time.Millisecond)
+	}
+	times := []string{}
+	for _, tn := range []string{c.table, t2} {
+		vt := s3db.GetTable(tn)
+		if vt == nil {
+			continue
+		}
+		d := map[string]interface{}{}
+		e.dumpDB(vt.Tree.Root, d)
+		for _, en := range d["entries"].([]interface{}) {
+			m := en.(map[string]interface{})
+			k := m["key"].(string)
+			if k == fmt.Sprintf("i:%d", base) || k == fmt.Sprintf("i:%d", base+1) {
+				times = append(times, m["modns"].(string))
+			}
+		}
+	}
+	// leave table 1 as it was (the rows become invisible delete markers) and drop the second table
+	time.Sleep(2 * time.Millisecond)
+	if _, err := e.exec(c, fmt.Sprintf("delete from %s where k in (%d, %d)", c.table, base, base+1)); err != nil {
+		fail(fmt.Errorf("cleanup: %w", err))
+		return
+	}
+	e.exec(c, "drop table "+t2)
+	out["times"] = times
+	out["outcome"] = "ok"
+	out["err"] = "-"
+	e.emit("tx2", s, out)
 }
